@@ -116,6 +116,60 @@ def check(case: dict):
     return {"nt": nt, "labels": labels}
 
 
+def check_sequence(case: dict):
+    """several queries answered by ONE maze object, in the drawn order (state kept between calls would show here)"""
+    g = case["g"]
+    _, a, comp_of, cyc = _model(g["r"], g["c"], g["cl"])
+    m = L.lattice(g)
+    nt = False
+    n_conn = 0
+    for k, q in enumerate(case["queries"]):
+        s, e = tuple(q[0]), tuple(q[1])
+        dist = M.bfs(a, s)
+        form = ("tuple", "array", "list")[k % 3]
+        s_arg, e_arg = (np.array(s), np.array(e)) if form == "array" else ((list(s), list(e)) if form == "list" else (s, e))
+        if e not in dist:
+            try:
+                res = m.find_shortest_path(s_arg, e_arg)
+            except ValueError:
+                continue
+            except Exception as ex:  # noqa: BLE001
+                raise Violation(f"C02:sequence:disconnected-raises:{type(ex).__name__}", f"query {k} {s}->{e}: {type(ex).__name__}: {ex}"[:300])
+            raise Violation("C02:sequence:disconnected-returned-path", f"query {k} of {case['queries']}: {s}->{e} not connected but got {np.asarray(res).tolist()}")
+        res = call("C02:sequence", m.find_shortest_path, s_arg, e_arg)
+        path = L.as_cells(np.asarray(res))
+        prob = M.path_problems(g, a, path, start=s, end=e, need_shortest=False, need_simple=False)
+        require(prob is None, "C02:sequence:unsound", f"query {k} of {case['queries']}: {s}->{e}: {prob}; path={path}")
+        require(len(path) - 1 == dist[e], "C02:sequence:not-shortest", f"query {k} of {case['queries']}: {s}->{e}: {len(path) - 1} steps, minimum {dist[e]}; path={path}")
+        n_conn += 1
+        nt = nt or (s != e and cyc[comp_of[s]])
+    return {"nt": nt and n_conn >= 2, "labels": ["sequence"]}
+
+
+@st.composite
+def _sequences(draw, hi):
+    g = draw(G.shaped_graphs(2, hi, False))
+    r, c = g["r"], g["c"]
+    a = M.adj(g)
+    qs = []
+    for _ in range(draw(st.integers(2, 8))):
+        s = draw(G.cell_in(r, c))
+        mode = draw(st.sampled_from(["comp", "comp", "any", "repeat", "reverse"]))
+        if mode == "repeat" and qs:
+            qs.append(draw(st.sampled_from(qs)))
+            continue
+        if mode == "reverse" and qs:
+            q = draw(st.sampled_from(qs))
+            qs.append([q[1], q[0]])
+            continue
+        if mode == "comp":
+            e = list(draw(st.sampled_from(sorted(M.bfs(a, tuple(s))))))
+        else:
+            e = draw(G.cell_in(r, c))
+        qs.append([s, e])
+    return {"g": g, "queries": qs}
+
+
 def _exhaustive_medium(shard: int, nshards: int):
     yield from _exhaustive_cases(shard, nshards, G.medium_shapes())
 
@@ -162,4 +216,5 @@ def subs(tier: str):
             strategy=_strategy(12 if quick else 30),
             examples=150 if quick else 2500,
         ),
+        Sub(name="query-sequences", check=check_sequence, kind="hypothesis", strategy=lambda: _sequences(10 if quick else 20), examples=60 if quick else 1000),
     ]
